@@ -169,7 +169,7 @@ prop("C01",
 
 
 prop("C27",
-     units=["cols", "rows", "colshift"],
+     units=["cols", "rows", "colshift", "spill"],
      level="proof",
      claim="column descriptors stay sorted, non-overlapping and non-degenerate and row descriptors stay unique under every writer under contract: "
            "the Worksheet setters (cols, rows), the descriptor rebuilds of insert/delete columns and rows (colshift; deletion yields exactly the surviving "
@@ -201,6 +201,16 @@ prop("C16",
                   "contracted aspect is the cell context they are given", "coordinates within +-2^22"],
      residual="pasted contents/styles/links/values (clipboard.rs), external references into the cut area (get_external_formula_updates_for_cut string rewriting), "
               "the non-reference arms of to_string_moved")
+
+
+prop("C31",
+     units=["spill"],
+     level="proof",
+     claim="slice: when the user types over a dynamic-array anchor or into its spill, every other cell of the old spill block is cleared "
+           "(both clearing loops of prepare_cell_for_user_input cover the whole block except the anchor), so no spilled value survives outside a block",
+     assumptions=["Worksheet::cell_clear_contents clears the cell it is given (stub with a ghost set of cleared cells)",
+                  "R4: the inner `for c in a..b` with `continue` is normalised to a while loop (Verus for-loops do not support continue)"],
+     residual="spill writing and blocking check (set_cells_with_result), clearing before re-evaluation, reset before structural edits, staleness across evaluation passes")
 
 
 def evidence(pid, tier, seed, results, scan_results, kani_results, violations, known_hits, undecided, wall):
